@@ -378,6 +378,31 @@ class _ConstProp(ast.NodeTransformer):
 
 # ------------------------------------------------------------------------------------------------- R3 idioms
 class _Idioms(ast.NodeTransformer):
+    def visit_BinOp(self, node):
+        node = self.generic_visit(node)
+        # "lit" + str(x)  /  "lit" + f"{x}"  ->  f"lit{x}"     (and the mirror image)
+        if isinstance(node.op, ast.Add):
+            def parts(e):
+                if isinstance(e, ast.Constant) and isinstance(e.value, str):
+                    return [e]
+                if isinstance(e, ast.JoinedStr):
+                    return list(e.values)
+                if isinstance(e, ast.Call) and isinstance(e.func, ast.Name) and e.func.id in ('str', 'format') and len(e.args) == 1 and not e.keywords:
+                    return [ast.FormattedValue(value=e.args[0], conversion=-1, format_spec=None)]
+                return None
+            a, b = parts(node.left), parts(node.right)
+            if a is not None and b is not None and (isinstance(node.left, (ast.Constant, ast.JoinedStr)) or isinstance(node.right, (ast.Constant, ast.JoinedStr))):
+                vals = []
+                for v in a + b:
+                    if isinstance(v, ast.Constant) and vals and isinstance(vals[-1], ast.Constant):
+                        vals[-1] = ast.Constant(vals[-1].value + v.value)
+                    else:
+                        vals.append(v)
+                if len(vals) == 1 and isinstance(vals[0], ast.Constant):
+                    return _fix(vals[0], node)
+                return _fix(ast.JoinedStr(values=vals), node)
+        return node
+
     def visit_Call(self, node):
         node = self.generic_visit(node)
         f = node.func
@@ -1989,6 +2014,149 @@ def _anchor_alias_pass(module, tree, report):
     report['anchor_aliases'] = n
     return tree
 
+# ------------------------------------------------------------------------------------------------- R10 tables of generated functions
+def _name_table_pass(tree, report):
+    """`T = {K(name): f for name, f in globals().items() if name.startswith(P)}` built once at import (directly or through a helper called with the
+    constant prefix), K(name) one of: name, name.removeprefix(P), name[len(P):], int(of those)  --  a look-up `T.get(E)` / `T[E]` / `E in T`
+    is the look-up of the generated function named P + <suffix> in the module namespace, which is how the anchored code spells it:
+    `globals().get(f"{P}{x}")`.  (The module namespace is not changed after import by anything in the package.)"""
+    def comp_info(c, prefix_param=None, prefix_value=None):
+        if not isinstance(c, ast.DictComp) or len(c.generators) != 1:
+            return None
+        g = c.generators[0]
+        it = g.iter
+        if isinstance(it, ast.Call) and isinstance(it.func, ast.Name) and it.func.id in ('tuple', 'list', 'sorted') and len(it.args) == 1:
+            it = it.args[0]
+        if not (isinstance(it, ast.Call) and isinstance(it.func, ast.Attribute) and it.func.attr == 'items' and isinstance(it.func.value, ast.Call)
+                and isinstance(it.func.value.func, ast.Name) and it.func.value.func.id in ('globals', 'vars') and not it.func.value.args):
+            return None
+        if not (isinstance(g.target, ast.Tuple) and len(g.target.elts) == 2 and all(isinstance(e, ast.Name) for e in g.target.elts)):
+            return None
+        nm, fv = g.target.elts[0].id, g.target.elts[1].id
+        if not (isinstance(c.value, ast.Name) and c.value.id == fv):
+            return None
+        def P_of(e):
+            if isinstance(e, ast.Constant) and isinstance(e.value, str):
+                return e.value
+            if prefix_param is not None and isinstance(e, ast.Name) and e.id == prefix_param:
+                return prefix_value
+            return None
+        P = None
+        conds = []
+        for cond in g.ifs:
+            conds.extend(cond.values if isinstance(cond, ast.BoolOp) and isinstance(cond.op, ast.And) else [cond])
+        for cnd in conds:
+            if isinstance(cnd, ast.Call) and isinstance(cnd.func, ast.Attribute) and cnd.func.attr == 'startswith' and isinstance(cnd.func.value, ast.Name) and cnd.func.value.id == nm \
+                    and len(cnd.args) == 1 and P_of(cnd.args[0]) is not None:
+                P = P_of(cnd.args[0]); continue
+            txt = ast.unparse(cnd)
+            if txt in (f"callable({fv})",) or txt.endswith('.isdecimal()') or txt.endswith('.isdigit()'):
+                continue
+            return None
+        if P is None:
+            return None
+        def suffix(e):
+            if isinstance(e, ast.Call) and isinstance(e.func, ast.Attribute) and e.func.attr == 'removeprefix' and isinstance(e.func.value, ast.Name) and e.func.value.id == nm \
+                    and len(e.args) == 1 and P_of(e.args[0]) == P:
+                return True
+            if isinstance(e, ast.Subscript) and isinstance(e.value, ast.Name) and e.value.id == nm and isinstance(e.slice, ast.Slice) and e.slice.upper is None and e.slice.step is None:
+                lo = e.slice.lower
+                if isinstance(lo, ast.Constant) and lo.value == len(P):
+                    return True
+                if isinstance(lo, ast.Call) and isinstance(lo.func, ast.Name) and lo.func.id == 'len' and len(lo.args) == 1 and P_of(lo.args[0]) == P:
+                    return True
+            return False
+        k = c.key
+        if isinstance(k, ast.Name) and k.id == nm:
+            return (P, 'name')
+        if suffix(k):
+            return (P, 'suffix')
+        if isinstance(k, ast.Call) and isinstance(k.func, ast.Name) and k.func.id == 'int' and len(k.args) == 1 and suffix(k.args[0]):
+            return (P, 'int')
+        return None
+    helpers = {}
+    for st in tree.body:
+        if isinstance(st, ast.FunctionDef) and len(st.args.args) == 1 and not st.decorator_list:
+            body = [b for b in st.body if not (isinstance(b, ast.Expr) and isinstance(b.value, ast.Constant))]
+            if len(body) == 1 and isinstance(body[0], ast.Return) and isinstance(body[0].value, ast.DictComp):
+                helpers[st.name] = (st.args.args[0].arg, body[0].value)
+    tables = {}
+    for st in tree.body:
+        tgt = None; val = None
+        if isinstance(st, ast.Assign) and len(st.targets) == 1 and isinstance(st.targets[0], ast.Name):
+            tgt, val = st.targets[0].id, st.value
+        elif isinstance(st, ast.AnnAssign) and isinstance(st.target, ast.Name) and st.value is not None:
+            tgt, val = st.target.id, st.value
+        if tgt is None:
+            continue
+        info = comp_info(val)
+        if info is None and isinstance(val, ast.Call) and isinstance(val.func, ast.Name) and val.func.id in helpers and len(val.args) == 1 and not val.keywords \
+                and isinstance(val.args[0], ast.Constant) and isinstance(val.args[0].value, str):
+            pp, comp = helpers[val.func.id]
+            info = comp_info(comp, pp, val.args[0].value)
+        if info is not None:
+            tables[tgt] = info
+    if not tables:
+        return tree
+    stores = {}
+    for n in ast.walk(tree):
+        if isinstance(n, ast.Name) and isinstance(n.ctx, (ast.Store, ast.Del)):
+            stores[n.id] = stores.get(n.id, 0) + 1
+    tables = {t: i for t, i in tables.items() if stores.get(t) == 1}
+    count = [0]
+    def name_expr(E, P, kind):
+        if kind == 'name':
+            return E
+        x = None
+        if kind == 'int':
+            x = E
+        else:
+            if isinstance(E, ast.JoinedStr) and len(E.values) == 1 and isinstance(E.values[0], ast.FormattedValue) and E.values[0].format_spec is None and E.values[0].conversion == -1:
+                x = E.values[0].value
+            elif isinstance(E, ast.Call) and isinstance(E.func, ast.Name) and E.func.id in ('str', 'format') and len(E.args) == 1 and not E.keywords:
+                x = E.args[0]
+            elif isinstance(E, ast.BinOp) and isinstance(E.op, ast.Mod) and isinstance(E.left, ast.Constant) and E.left.value in ('%d', '%s', '%i'):
+                x = E.right
+        if x is None:
+            return None
+        return ast.JoinedStr(values=[ast.Constant(P), ast.FormattedValue(value=x, conversion=-1, format_spec=None)])
+    def G():
+        return ast.Call(func=ast.Name(id='globals', ctx=ast.Load()), args=[], keywords=[])
+    class R(ast.NodeTransformer):
+        def visit_Call(self, node):
+            node = self.generic_visit(node)
+            f = node.func
+            if isinstance(f, ast.Attribute) and f.attr == 'get' and isinstance(f.value, ast.Name) and f.value.id in tables and 1 <= len(node.args) <= 2 and not node.keywords:
+                P, kind = tables[f.value.id]
+                ne = name_expr(node.args[0], P, kind)
+                if ne is not None:
+                    count[0] += 1
+                    new = ast.Call(func=ast.Attribute(value=G(), attr='get', ctx=ast.Load()), args=[ne] + list(node.args[1:]), keywords=[])
+                    return _fix(new, node)
+            return node
+        def visit_Subscript(self, node):
+            node = self.generic_visit(node)
+            if isinstance(node.value, ast.Name) and node.value.id in tables and isinstance(node.ctx, ast.Load) and not isinstance(node.slice, ast.Slice):
+                P, kind = tables[node.value.id]
+                ne = name_expr(node.slice, P, kind)
+                if ne is not None:
+                    count[0] += 1
+                    return _fix(ast.Subscript(value=G(), slice=ne, ctx=ast.Load()), node)
+            return node
+        def visit_Compare(self, node):
+            node = self.generic_visit(node)
+            if len(node.ops) == 1 and isinstance(node.ops[0], (ast.In, ast.NotIn)) and isinstance(node.comparators[0], ast.Name) and node.comparators[0].id in tables:
+                P, kind = tables[node.comparators[0].id]
+                ne = name_expr(node.left, P, kind)
+                if ne is not None:
+                    count[0] += 1
+                    return _fix(ast.Compare(left=ne, ops=node.ops, comparators=[G()]), node)
+            return node
+    tree = R().visit(tree)
+    ast.fix_missing_locations(tree)
+    report['name_tables'] = count[0]
+    return tree
+
 def exported_constants(tree):
     return collect_constants(tree).module
 
@@ -2032,6 +2200,7 @@ def normalize_module(name, tree, sibling_consts=None, sibling_funcs=None):
     cp = _ConstProp(info)
     tree = cp.visit(tree)
     report['constants'] = cp.count
+    tree = _name_table_pass(tree, report)
     tree = _Idioms().visit(tree)
     report['dispatch'] = 0
     for n in ast.walk(tree):
